@@ -96,6 +96,24 @@ def run(v, O):
            ('number->rad units', O.same(Quantity(v.x).to('rad').units(), 'rad'))]
     return out
 '''
+AFTER_SRC = '''
+def run(v, O):
+    # a conversion that is refused, or a reciprocal one, must not influence the conversions that follow on the same object
+    q = Quantity(v.x, v.u)
+    out = []
+    if v.bad:
+        out.append(('value(bad) refused', O.raises(lambda: q.value(v.bad))))
+    if v.recip:
+        r1 = q.value(v.recip)
+        r2 = q.value(v.recip)
+        out.append(('reciprocal value(w) twice gives the same number', O.eq(r2, r1, 1e-12)))
+    out.append(('linear conversion afterwards: value(w)', O.eq(q.value(v.w), v.x * v.ruw, 1e-9)))
+    if v.bad:
+        out.append(('to(bad) refused', O.raises(lambda: q.to(v.bad))))
+    out.append(('linear conversion afterwards: to(w)', O.eq(q.to(v.w).value(), v.x * v.ruw, 1e-9)))
+    out.append(('units after to(w)', O.same(q.units(), Quantity(1, v.w).units())))
+    return out
+'''
 MISMATCH_SRC = '''
 def run(v, O):
     q = Quantity(v.x, v.u) if v.u else Quantity(v.x)
@@ -166,7 +184,7 @@ def scenarios(tier, seed):
             pairs.append((reps[a], reps[b]))
     if tier == 'quick':
         pairs = rnd.sample(pairs, 220)
-    special = [('', 'rad2'), ('', 'rad-1'), ('', 'mrad3'), ('', 'm'), ('m', None), ('', 'sr'), ('', 'deg2'), ('%', 'rad'), ('m', 'rad'), ('rad', 'm'),
+    special = [('', 'rad/s'), ('', 'rad*m'), ('', 'mrad/ms'), ('', 'rad*kg/h'), ('', 'm*rad'), ('', 'rad2'), ('', 'rad-1'), ('', 'mrad3'), ('', 'm'), ('m', None), ('', 'sr'), ('', 'deg2'), ('%', 'rad'), ('m', 'rad'), ('rad', 'm'),
                ('m', 's'), ('m2', 'm'), ('m', 'm-2'), ('kg', 'Cel'), ('m', 'dBm'), ('J', 'N'), ('W', 'J'), ('Pa', 'N'), ('A', 'C'), ('Hz', 'm-1'),
                ('s', 's-2'), ('m1:2', 'm'), ('statC', 'C'), ('mol', ''), ('cd', 'lm'), ('K', 'J'), ('eV', 'K'), ('l', 'm2'), ('kat', 'mol'), ('Gy', 'J')]
     for u, w in special:
@@ -178,6 +196,11 @@ def scenarios(tier, seed):
             continue
         S.append(Scenario(f'mismatch/{u or "(number)"}->{w}', MISMATCH_SRC, {'x': 'real'}, consts={'u': u, 'w': w}, preamble=PRE,
                           what=f'conversion between different dimensions {u or "(bare number)"} -> {w} must be refused', samples=1))
+    for u, w, bad, recip in (('km', 'm', 's', None), ('kHz', 'Hz', 'm', 'ms'), ('g/cm3', 'kg/m3', 'kW*h', None), ('cm-1', 'm-1', 'kg', 'um'), ('Ohm', 'kOhm', None, 'S'), ('J', 'erg', 'K', None),
+                              ('s', 'ms', None, 'Hz'), ('km/h', 'm/s', 'm', None)):
+        ruw = unitkit.ref_parse(u).value() / unitkit.ref_parse(w).value()
+        S.append(Scenario(f'after/{u}->{w}/{bad}/{recip}', AFTER_SRC, {'x': 'real'}, ['v.x > 0'], consts={'u': u, 'w': w, 'bad': bad, 'recip': recip, 'ruw': ruw}, preamble=PRE,
+                          what=f'{u} -> {w} after a refused conversion to {bad} / a reciprocal conversion to {recip} on the same quantity', samples=2))
     # ---- canaries ---------------------------------------------------------------
     S.append(Scenario('canary/factor', LINEAR_SRC, {'x': 'real'}, consts={'u': 'km', 'w': 'm', 'm': 'cm', 'ruw': 100.0}, preamble=PRE, canary=True))
     S.append(Scenario('canary/mismatch', MISMATCH_SRC, {'x': 'real'}, consts={'u': 'km', 'w': 'mm'}, preamble=PRE, canary=True))
